@@ -1306,6 +1306,8 @@ struct SiteCollector<'a> {
   sites: Vec<Site>,
   /// the expression visited next is a direct argument of a call whose type arguments are inferred
   arg_of_inferred_call: bool,
+  /// the expression visited next is the callee of a call
+  callee_of_call: bool,
   /// census of the language features the annotation rewrites meet (evidence only)
   features: BTreeMap<&'static str, usize>,
 }
@@ -1398,6 +1400,7 @@ impl<'a> SiteCollector<'a> {
   /// `block_ok`: a block expression means the same here.
   fn expr(&mut self, e: &expr::E<T>, paren_ok: bool, block_ok: bool) {
     let arg_of_inferred_call = std::mem::replace(&mut self.arg_of_inferred_call, false);
+    let callee_of_call = std::mem::replace(&mut self.callee_of_call, false);
     let loc = e.loc();
     let is_class = matches!(e, expr::E::ClassId(..));
     if paren_ok {
@@ -1433,6 +1436,10 @@ impl<'a> SiteCollector<'a> {
           }
           shapes.push('>');
           if ok {
+            if !callee_of_call {
+              // a generic member used as a VALUE: its type arguments were solved from the expected function type
+              self.feature("explicit_type_args_sites_on_generic_member_values");
+            }
             self.push(
               6,
               SiteData::Targs {
@@ -1454,6 +1461,7 @@ impl<'a> SiteCollector<'a> {
           expr::E::MethodAccess(m) => m.explicit_type_arguments.is_none() && !m.inferred_type_arguments.is_empty(),
           _ => false,
         };
+        self.callee_of_call = true;
         self.expr(&c.callee, true, !generic_member_callee);
         for x in &c.arguments.expressions {
           self.arg_of_inferred_call = generic_member_callee;
@@ -1568,6 +1576,64 @@ fn bound_features(heap: &Heap, tps: Option<&annotation::TypeParameters>) -> Vec<
   out
 }
 
+/// census: a member that declares a type parameter with the name of a type parameter of its class
+/// (in a static function the class parameter is not in scope: the name means the function's own)
+fn tparam_reuse_features(
+  heap: &Heap,
+  class_tps: Option<&annotation::TypeParameters>,
+  member_tps: Option<&annotation::TypeParameters>,
+  is_method: bool,
+) -> Vec<&'static str> {
+  fn bound_text(heap: &Heap, a: &annotation::T, out: &mut String) {
+    match a {
+      annotation::T::Primitive(_, _, k) => out.push_str(k.kind_str()),
+      annotation::T::Generic(_, id) => out.push_str(id.name.as_str(heap)),
+      annotation::T::Id(id) => id_text(heap, id, out),
+      annotation::T::Fn(f) => {
+        out.push('(');
+        for x in &f.parameters.annotations {
+          bound_text(heap, x, out);
+          out.push(',');
+        }
+        out.push_str(")->");
+        bound_text(heap, &f.return_type, out);
+      }
+    }
+  }
+  fn id_text(heap: &Heap, id: &annotation::Id, out: &mut String) {
+    out.push_str(id.id.name.as_str(heap));
+    out.push('<');
+    for x in id.type_arguments.iter().flat_map(|t| &t.arguments) {
+      bound_text(heap, x, out);
+      out.push(',');
+    }
+    out.push('>');
+  }
+  let bound_of = |p: &annotation::TypeParameter| {
+    p.bound.as_ref().map(|b| {
+      let mut s = String::new();
+      id_text(heap, b, &mut s);
+      s
+    })
+  };
+  let mut out = vec![];
+  if let (Some(c), Some(m)) = (class_tps, member_tps) {
+    for mp in &m.parameters {
+      if let Some(cp) = c.parameters.iter().find(|cp| cp.name.name == mp.name.name) {
+        let (cb, mb) = (bound_of(cp), bound_of(mp));
+        out.push(match (is_method, cb == mb, cb.is_some(), mb.is_some()) {
+          (true, _, _, _) => "method_type_parameter_named_like_class_type_parameter",
+          (false, true, _, _) => "static_function_type_parameter_named_like_class_type_parameter:same_bound",
+          (false, false, false, true) => "static_function_type_parameter_named_like_class_type_parameter:bound_only_on_function",
+          (false, false, true, false) => "static_function_type_parameter_named_like_class_type_parameter:bound_only_on_class",
+          (false, false, _, _) => "static_function_type_parameter_named_like_class_type_parameter:other_bound",
+        });
+      }
+    }
+  }
+  out
+}
+
 fn pair_sites(n: usize, cap: usize, mut f: impl FnMut(usize, usize)) {
   // all pairs for small lists, neighbours and a few far pairs for long ones
   let mut count = 0;
@@ -1603,6 +1669,7 @@ fn collect_sites_and_features(a: &Analysis, entry: &str) -> (Vec<Site>, BTreeMap
       binders: vec![],
       sites: vec![],
       arg_of_inferred_call: false,
+      callee_of_call: false,
       features: BTreeMap::new(),
     };
     let is_std = name.starts_with("std.");
@@ -1616,6 +1683,9 @@ fn collect_sites_and_features(a: &Analysis, entry: &str) -> (Vec<Site>, BTreeMap
       for d in t.members_iter() {
         for (f, n) in bound_features(&a.heap, d.type_parameters.as_ref()) {
           *col.features.entry(f).or_default() += n;
+        }
+        for f in tparam_reuse_features(&a.heap, t.type_parameters(), d.type_parameters.as_ref(), d.is_method) {
+          *col.features.entry(f).or_default() += 1;
         }
       }
       let n_members = t.members_iter().count();
